@@ -80,6 +80,26 @@ func checkIdentityKeys(p *Prog, r *Report, rule string, only func(*ssa.Function)
 			})
 			r.Check(dep, rule, cons+" identifies the variable", p.Pos(posOf(bl.At)), "key depends on the variable's address",
 				"the interface mocker cache key does not depend on the address of the interface variable: a second variable of the same interface type gets the first variable's mocker, so the first variable is re-mocked and the second stays untouched")
+			// the address is taken whenever the argument is a pointer: never on the side where `Kind() == Ptr` is false
+			okSide := true
+			eachInstr(bl.Fn, func(i ssa.Instruction) {
+				c, ok := i.(*ssa.Call)
+				if !ok || calleeName(c.Common()) != "(reflect.Value).Pointer" || !dependsOn(bl.Key, func(v ssa.Value) bool { return v == ssa.Value(c) }) {
+					return
+				}
+				for _, g := range guardsAt(c.Block()) {
+					if k, _, isKind := kindTest(g.Cond); isKind && k == 22 && !g.Pol {
+						okSide = false
+					}
+					if bo, isB := g.Cond.(*ssa.BinOp); isB && bo.Op == token.NEQ && g.Pol {
+						if kc, isC := constInt(bo.Y); isC && kc == 22 && strings.HasSuffix(bo.X.Type().String(), "reflect.Kind") {
+							okSide = false
+						}
+					}
+				}
+			})
+			r.Check(okSide, rule, cons+" takes the address on the pointer side", p.Pos(posOf(bl.At)), "Pointer() is not confined to Kind() != Ptr",
+				"the variable's address enters the key only when the argument is NOT a pointer: for every real interface variable (&v) the key is the type alone, so a second variable of the same type gets the first variable's mocker")
 		}
 	}
 }
@@ -90,6 +110,9 @@ func c06(c *Ctx) {
 	// overwrite the destination of one prepared earlier
 	if !c.importing {
 		importSibling(c, "C01", "C06.R6", func(rule string) bool { return rule == "C01.R1" || rule == "C01.R6" })
+		// R7: the per-builder and per-type mocker caches are consulted and filled under the same key and hand a mocker back
+		// only if it was found and not cancelled (C12.R1, C12.R5): otherwise another method's / package's mocker is continued
+		importSibling(c, "C12", "C06.R7", func(rule string) bool { return rule == "C12.R1" || rule == "C12.R5" })
 	}
 	r.Expl = "Structural clauses behind 'method mocks replace exactly the named method': the per-builder cache key of a struct/interface mocker is identity bearing (never reflect.Type.String()); the per-type method caches are keyed by exactly the requested name; for exported methods the patched origin is MethodByName(n).Func for the very name stored in the mocker, passed unchanged through proxy and patch; for unexported methods the symbol name is pkg.(*T).m / pkg.T.m built from the receiver kind, and symbol matching is exact (C10). Dispatch for value receivers and generic shapes at run time is not decided."
 	r.RuleText = "one obligation per (rule, lookup / call site / format)"
